@@ -286,7 +286,8 @@ def borrow(ctx: Ctx, res: Result, tier: str, module_name: str, rules, as_rule: s
         cut_before = ctx._extra.get("borrow_cut", False)
         ctx._extra["borrow_cut"] = False
         try:
-            sub = mod.run(ctx, tier)
+            from . import run_property
+            sub = run_property(ctx, pid, tier)
         except AnalysisError:
             sub = _report.CURRENT
             if sub is None or sub.pid != pid or not [f for f in sub.findings if f.rule in rules]:
@@ -315,7 +316,7 @@ def _toks(name: str):
     return {x for x in name.lower().strip("_").split("_") if x and x not in ("str", "is", "the")}
 
 
-def dataclass_rule(ctx: Ctx, res: Result, rid: str, class_qnames):
+def dataclass_rule(ctx: Ctx, res: Result, rid: str, class_qnames, as_given=()):
     """Plain data carriers (what the collector fills and the wire converter reads): every read-only property hands out
     the field of the same meaning, and the constructor stores each parameter under the field of the same meaning.
     Names are compared as sets of `_`-separated words (ts_nanos ~ _ts_nanos, is_async ~ _async, id ~ tp_id)."""
@@ -351,6 +352,16 @@ def dataclass_rule(ctx: Ctx, res: Result, rid: str, class_qnames):
             if cq != c.qname:
                 continue
             for sf, v, _ in lst_:
+                if sf is init and v is not None and not isinstance(v, ast.Name) and (_toks(attr.split("__")[-1]) & set(as_given)):
+                    # the parameter of the same meaning passed through a function before it is stored: the carrier does not
+                    # keep what it was given (a text cut to its bound and then escaped is longer than the bound again)
+                    fld_ = attr.split("__")[-1] if attr.startswith("_" + c.name) else attr
+                    ps_ = [n.id for n in ast.walk(v) if isinstance(n, ast.Name) and n.id in init.params and (_toks(fld_) & _toks(n.id))]
+                    calls_ = [n for n in ast.walk(v) if isinstance(n, ast.Call)]
+                    if ps_ and calls_ and not isinstance(v, (ast.BoolOp, ast.IfExp)):
+                        res.fail(Finding(rid, init.qname, v, init.loc(v), "%s.%s is not stored as given but as `%s`: what readers (and the wire) get is not what the producer "
+                                         "handed over - a text that was cut to its bound and marked is changed after the cut" % (c.name, attr, norm(v)[:60])))
+                    continue
                 if sf is not init or not isinstance(v, ast.Name) or v.id not in init.params:
                     continue
                 n_store += 1
